@@ -248,8 +248,16 @@ def fill_deck(rnd, depth=1, reuse=False, spelling=None, inner='slab', nsym=3):
         elif sp == 'trcl':
             c.trcl = rand_tr(rnd, 'c%d' % c.id, pre, budget=bud)
         elif sp == 'trcl+fill':
+            # the FILL displacement gets the symbolic numbers first: "the FILL transformation is the identity"
+            # must be a fork of the solver, not a lucky draw
+            r_ = rnd.random()
+            if r_ < 0.3:
+                c.filltr = [Fr(0), Fr(0), Fr(0)]                       # an explicit identity FILL transformation
+            elif r_ < 0.6:
+                c.filltr = [bud.num('f%d0' % c.id, pre), Fr(0), Fr(0)]   # identity on one path of the solver
+            else:
+                c.filltr = rand_tr(rnd, 'f%d' % c.id, pre, rot=False, budget=bud)
             c.trcl = rand_tr(rnd, 'c%d' % c.id, pre, budget=bud)
-            c.filltr = rand_tr(rnd, 'f%d' % c.id, pre, rot=False, budget=bud)
         if u not in done_universes:
             done_universes.add(u)
             universe_cells(u, level)
